@@ -139,14 +139,14 @@ func typedSlot(cur any) bool {
 var big64k = strings.Repeat("A", 65536)
 
 func hostileFor(r *Rng, cur any) any {
-	generic := []any{"", "x", big64k, "\u0000", "日本語", "~", "null", "true", "1", "-1",
+	generic := []any{"", "x", big64k, "\u0000", "日本語", "~", "null", "true", "1", "-1", "x\r", "\r", "\n", "a\r\nb", "!null\r", "x\t", " x ", "%s%d%v", "\x1b[31m",
 		RawScalar("99999999999999999999999999"), RawScalar("-99999999999999999999999999"), RawScalar("1e400"), RawScalar("0.5"),
 		int64(-1), int64(0), int64(2147483648), int64(9223372036854775807), RawScalar("-9223372036854775808"),
 		true, nil, []any{}, OM{}, []any{int64(1), "a"}, OM{{"a", int64(1)}}, []any{[]any{}}, RawScalar("!!binary AAAA"), RawScalar("&a *a"), RawScalar("[*a]")}
 	oids := []any{"1.2.99999999999999999999", "2.5.29.99999999999999999999999999999", "9.9.9", "1", "1.2", "0.40.1", "2.999999999999.1", "1.2.3." + strings.Repeat("1.", 3000) + "1",
 		"1.2.-3", "1..2", "00.01.002", "3.1.1", "1.40.1", "7", "999.1.1.1", "1.2.3.4.5", "256.256.256.256", "1.2.3.", ".1.2.3", "1.2.3", "0.0.0.0", "::1", "2001:db8::1", "::ffff:1.2.3.4", "fe80::1%eth0", "1.2.3.4/24", "01.02.03.04", "+1.2.3.4", "1.2.3.4 ", "18446744073709551616.1", "1.18446744073709551616", "1.2.4294967296", "1.2.9223372036854775808"}
 	dates := []any{"2030-02-30", "1950-13-01", "0000-00-00", "9999-12-31", "2030-00-10", "2030-10-00", "2030-19-39", "0001-01-01", "1969-12-31", "2038-01-19", "2262-04-12", "2030-1-1"}
-	b64s := []any{"!binary:", "!binary:====", "!binary:A", "!binary:QUJD*", "!binary:AAA", "x!binary:QQ==", "!binary:" + strings.Repeat("QUJD", 20000), "!null", "!empty", "hash", "!emptyx", "!binary:QQ==\n", "!binary: QQ=="}
+	b64s := []any{"!null\r", "!empty\r\n", "!binary:QQ==\r", "!binary:", "!binary:====", "!binary:A", "!binary:QUJD*", "!binary:AAA", "x!binary:QQ==", "!binary:" + strings.Repeat("QUJD", 20000), "!null", "!empty", "hash", "!emptyx", "!binary:QQ==\n", "!binary: QQ=="}
 	durs := []any{"99999999999999999999y", "0y0m0d", "y", "5x", "1y1y", "-1y", "9223372036854775807d", "2147483648m", "1d1y"}
 	subj := []any{"CN=", "=x", "CN=a,b", "CN=#", "CN=#zz", "CN=#13", "CN=#1303", "CN=#130341", "CN=#0c", "1.2.99999999999999999999=x", "C=\\,", "CN=a=b", "CN=x,", ",CN=x", "CN=#" + strings.Repeat("ff", 5000), "9.9=x", "1=x", "CN=\\", "CN=a\\,b, O=c", "  CN = x  ", "CN=a,,CN=b", "CN=x, ", "CN = x", "C=DE, " + strings.Repeat("OU=u, ", 40) + "CN=many", "CN=a\\,b"}
 	ips := []any{"::1", "2001:db8::1", "::ffff:1.2.3.4", "fe80::1%eth0", "::", "1.2.3.4/24", "01.02.03.04", "+1.2.3.4", "1.2.3.4 ", " 1.2.3.4", "256.1.1.1", "1.2.3.256", "1.2.3.-4", "-1.2.3.4", "1.2.3", "1.2.3.4.5", "1.2.3.", ".1.2.3.4", "1..3.4", "0x1.2.3.4", "1.2.3.4e0", "1.2.3.999999999999999999999", "a.b.c.d", "1,2,3,4", "0.0.0.0", "255.255.255.255", "1.2.3.4\n", "localhost", "[::1]", "1.2.3.4:80", "\u0661.2.3.4"}
